@@ -38,6 +38,9 @@ def run(ctx):
     # never SUCCEEDED/PENDING and never a hang (executor theorems C06X_*)
     from harness import comp_executor
     comp_executor.run_fault(ctx, "C06")
+    # ... and in sequential workflows (steps incl. at-most-once retries, waits, callbacks, child contexts)
+    from harness import comp_engine
+    comp_engine.run_fault(ctx, "C06")
 
 
 def search(ctx):
@@ -54,6 +57,10 @@ def search(ctx):
 
 def replay(ctx, rec):
     case = rec["case"]
+    if "script" in case:
+        from harness import comp_engine
+        comp_engine.replay(ctx, rec, "C06")
+        return
     if "blocks" in (case.get("scenario") or {}):
         from harness import comp_executor
         comp_executor.replay(ctx, rec, "C06")
